@@ -80,6 +80,9 @@ def fragment(m, tr, body, line, fname, spec):
     U = m.Unsupported
     what = f"fragment {spec['name']} of {fname}"
     inner0 = 1; blk = body[1:len(body) - 1]
+    if spec.get("whole"):          # the whole body of a function whose SIGNATURE is outside the parser's subset (generic types): parameters from the table
+        text = f"fn {spec['name']}({spec['params']}) {{\n" + blk + "\n}"
+        return rewrite_iters(text), line
     if spec.get("arm"):
         ms = list(re.finditer(spec["arm"], body))
         if len(ms) != 1: raise U(f"{what}: match arm `{spec['arm']}` found {len(ms)} times")
@@ -90,8 +93,15 @@ def fragment(m, tr, body, line, fname, spec):
         hits = [k for k, (a, b) in enumerate(st) if re.match(rx, " ".join(blk[a:b].split()))]
         if len(hits) != 1: raise U(f"{what}: statement `{rx}` found {len(hits)} times")
         return hits[0]
-    k0 = find(spec["start"])
-    k1 = find(spec["end"]) if spec.get("end") else len(st) - 1
+    def find_contains(rx, last):
+        hits = [k for k, (a, b) in enumerate(st) if re.search(rx, blk[a:b])]
+        if not hits: raise U(f"{what}: no statement contains `{rx}`")
+        return hits[-1] if last else hits[0]
+    if spec.get("contains"):       # the range from the FIRST to the LAST top-level statement that mentions a function name
+        k0, k1 = find_contains(spec["contains"], False), find_contains(spec["contains"], True)
+    else:
+        k0 = find(spec["start"])
+        k1 = find(spec["end"]) if spec.get("end") else len(st) - 1
     if k1 < k0: raise U(f"{what}: end statement before start statement")
     frag = blk[st[k0][0]:st[k1][1]]
     if re.search(r"\breturn\b", frag): raise U(f"{what}: `return` inside the range")
@@ -119,7 +129,7 @@ def fragment(m, tr, body, line, fname, spec):
             tops.append(pre[start:i + 1]); start = None
         i += 1
     for s in tops:
-        mm = re.match(r"let\s+([a-z_]\w*)\s*=\s*(.*);\s*$", " ".join(s.split()), re.S)
+        mm = re.match(r"let\s+(?:mut\s+)?([a-z_]\w*)\s*=\s*(.*);\s*$" if spec.get("mut_lets") else r"let\s+([a-z_]\w*)\s*=\s*(.*);\s*$", " ".join(s.split()), re.S)
         if mm: lets.append((mm.group(1), s))
     need = idents(frag); chosen = []
     changed = True
@@ -129,7 +139,7 @@ def fragment(m, tr, body, line, fname, spec):
             if nm in need and s not in chosen:
                 chosen.append(s); need |= idents(s); changed = True
     chosen = [s for _, s in lets if s in chosen]
-    text = f"fn {spec['name']}(c: ContextData) {{\n" + "\n".join(chosen) + "\n" + frag + "\n}"
+    text = f"fn {spec['name']}({spec.get('params', 'c: ContextData')}) {{\n" + "\n".join(chosen) + "\n" + frag + "\n}"
     text = rewrite_iters(text)
     return text, ln
 
@@ -138,9 +148,18 @@ def generate(m, tr, spec):
     U = m.Unsupported
     tr.cur_ns = spec["ns"]
     src = m.strip_comments(open(m.os.path.join(tr.repo, CTX)).read())
-    off, line = m.find_fn(src, "validate", CTX, 0, None)
-    j = src.index("{", off); end = m.brace_block(src, j, "fn validate")
-    body = src[j:end]; line += src.count("\n", off, j)
+    def body_of(fname, impl=None):
+        lo, hi = 0, None
+        if impl is not None:          # the `impl <T> { .. }` block (of possibly several) that contains the function
+            hits = []
+            for mb in re.finditer(r"\bimpl\s+%s\s*\{" % re.escape(impl), src):
+                j0 = mb.end() - 1; e0 = m.brace_block(src, j0, f"impl {impl}")
+                if re.search(r"\bfn\s+%s\s*\(" % re.escape(fname), src[j0:e0]): hits.append((j0, e0))
+            if len(hits) != 1: raise m.Unsupported(f"fn {fname} found in {len(hits)} `impl {impl}` blocks of {CTX}")
+            lo, hi = hits[0]
+        off, line = m.find_fn(src, fname, CTX, lo, hi)
+        j = src.index("{", off); end = m.brace_block(src, j, f"fn {fname}")
+        return src[j:end], line + src.count("\n", off, j)
     out = ["/- GENERATED by tools/rs2lean.py + tools/rs2lean_ctx.py (via tools/extract.py) from src/util/rns.rs (`RNSBase::decompose`) and src/context.rs",
            "   (`fn validate`: the statement ranges that compute the per-level constants, see TRANSLATOR notes of worker T) -- do not edit. -/"]
     out += [f"import {x}" for x in spec["imports"]] + ["", "set_option linter.unusedVariables false", "", f"namespace HC.{spec['ns']}", "open HC"]
@@ -152,7 +171,7 @@ def generate(m, tr, spec):
         except U as ex: raise U(f"rs2lean: {ent['file']}: fn {ent['fn']}: {ex}")
     saved = {k: tr.sigs.get(k) for k in MODEL_SIGS}
     tr.sigs.update(MODEL_SIGS)            # callable only from the fragments below
-    try: out += fragments(m, tr, spec, body, line)
+    try: out += fragments(m, tr, spec, body_of)
     finally:
         for k, v in saved.items():
             if v is None: tr.sigs.pop(k, None)
@@ -161,18 +180,22 @@ def generate(m, tr, spec):
     return "\n".join(out)
 
 
-def fragments(m, tr, spec, body, line):
+def fragments(m, tr, spec, body_of):
     U = m.Unsupported; out = []
     for fs in spec["fragments"]:
         try:
-            text, ln = fragment(m, tr, body, line, "validate", fs)
+            if "table" in fs:          # an ordinary table entry placed between fragments (a function a later fragment calls)
+                ent = fs["table"]
+                out.append(m.FnTranslate(tr, m.parse_fn(tr.repo, ent["file"], ent["fn"], ent.get("impl")), ent).translate()); continue
+            body, line = body_of(fs.get("fn", "validate"), fs.get("impl"))
+            text, ln = fragment(m, tr, body, line, fs.get("fn", "validate"), fs)
             toks = m.tokenize(text, ln)
             pf = m.Parser(toks, fs["name"]).fn_item()
             norm = " ".join(t[1] for t in toks)
             pf.update({"file": CTX, "line0": ln, "line1": ln + text.count("\n"), "hash": hashlib.sha256(norm.encode()).hexdigest()[:16], "norm": norm,
                        "selfty": None, "aliases": {}, "impl": None})
             out.append(m.FnTranslate(tr, pf, dict(fs["opts"], lean=fs["name"])).translate())
-        except U as ex: raise U(f"rs2lean: {CTX}: fragment {fs['name']} of fn validate: {ex}")
+        except U as ex: raise U(f"rs2lean: {CTX}: fragment {fs.get('name') or fs['table']['fn']} of fn {fs.get('fn', 'validate')}: {ex}")
     return out
 
 
@@ -247,6 +270,49 @@ SK_CKKS = {
                 "util::right_shift_uint_inplace(&c.upper_half_threshold, 1, $k)": "right_shift_uint_inplace(uht, 1, $k);"},
 }
 
+# `create_next_context_data` (chain construction).  Levels are identified by their NUMBER OF PRIMES (all levels of one context carry prefixes of the
+# same list: the new parameter set is the previous one with the last modulus popped); `valid[n] != 0` <=> `validate` accepts the prefix of length n;
+# PARMS_ID_ZERO is the count 0; `chain` records the counts of the levels inserted into the map, in order.
+PREV = "context_data_map.get(prev_parms_id).unwrap()"
+NP0 = PREV + ".parms.clone()"
+NCM = NP0 + ".coeff_modulus().to_vec()"
+NP1 = NP0 + ".set_coeff_modulus(&%s)" % NCM
+NID = "*%s.parms_id()" % NP1
+NCD = "Self::validate(%s, sec_level)" % NP1
+SK_CREATE_NEXT = {
+    "sig": "fn create_next_context_data(prev_len: usize, valid: &[u64], chain: &mut Vec<u64>) -> usize",
+    "prologue": "let mut next_len = prev_len;", "epilogue": "next_len",
+    "handles": [NP0, NCM, NP1, NID, NCD, PREV, "Arc::new(%s)" % NCD],
+    "exprs": {NCD + ".qualifiers.parameters_set()": "valid[next_len] != 0", "PARMS_ID_ZERO": "0"},
+    "effects": {NCM + ".pop()": "next_len = next_len - 1; assert!(next_len >= 1);",
+                NCD + ".prev_context_data = Some(Arc::downgrade(%s))" % PREV: "",
+                "unsafe": "", NID: "",          # (the tail expression `next_parms_id`: the result is the epilogue's `next_len`)
+                "context_data_map.insert(%s, Arc::new(%s))" % (NID, NCD): "chain.push(next_len as u64);"},
+}
+
+# the chain part of `HeContext::new`: from the first to the last top-level statement that calls `create_next_context_data` (the choice of the first data
+# level and the `while` loop that expands the chain).  Parameter ids are prime counts as above; the key level has `k` primes.
+KEYID = "*parms.parms_id()"
+MAP = "HashMap::new()"          # (the local `context_data_map`, whatever it is called: a handle standing for the map being built)
+MAPGET = MAP + ".get(&%s).unwrap()"
+SK_NEW_CHAIN = {
+    "sig": "fn new_chain(k: usize, valid: &[u64], special: bool, chain: &mut Vec<u64>)",
+    "handles": [KEYID, MAP],
+    "exprs": {KEYID: "k", "PARMS_ID_ZERO": "0", "parms.coeff_modulus().len()": "k", "parms.use_special_prime_for_encryption()": "special",
+              (MAPGET % KEYID) + ".qualifiers.parameters_set()": "valid[k] != 0",
+              (MAPGET % "$x") + ".parms.coeff_modulus().len()": "$x",
+              "Self::create_next_context_data(&%s, &%s, sec_level)" % (MAP, KEYID): "create_next_context_data(k, valid, chain)",
+              "Self::create_next_context_data(&%s, &$x, sec_level)" % MAP: "create_next_context_data($x, valid, chain)"},
+}
+
+# NOT generated (kept for the record): the first statement of the range is `let first_parms_id = if .. { .. create_next_context_data(&mut map, ..) .. }`, a
+# value-`if` whose branch writes through a `&mut` argument; the translator has no merge for that (it now REFUSES it: "`if` used as a value assigns outer
+# variables ['chain']"; before the round-7 fix in `if_value` the update of `chain` was silently dropped).  Also a `while` nested in an `if` is refused.
+NEW_CHAIN_FRAGMENT = {"name": "new_chain", "fn": "new", "impl": "HeContext", "mut_lets": True,
+             "arm": r"\bif\s+\w+\s*&&\s*[^{};]*parameters_set\s*\(\s*\)\s*\{", "contains": r"\bcreate_next_context_data\b|\bwhile\b|\blet\b",
+             "params": "parms: EncryptionParameters, expand_mod_chain: bool, sec_level: SecurityLevel",
+             "opts": {"skeleton": SK_NEW_CHAIN, "nested_loops": True, "loops": [{"fuel": "k"}]}}
+
 SPEC = {"ctx_mode": True, "ns": "GenX", "imports": ["Heathcliff.Gen.WordFns", "Heathcliff.Gen.RnsFns"], "opens": ["HC.GenW"], "prelude": PRELUDE,
         "table": [{"file": UR, "fn": "decompose", "impl": "RNSBase", "lean": "rns_decompose", "model": "decomposeW", "skeleton": SK_DECOMPOSE, "register_as": "decompose", "nested_loops": True}],
         "fragments": [
@@ -255,4 +321,7 @@ SPEC = {"ctx_mode": True, "ns": "GenX", "imports": ["Heathcliff.Gen.WordFns", "H
              "opts": {"skeleton": SK_BFV, "nested_loops": True}},
             {"name": "validate_ckks_consts", "arm": r"SchemeType\s*::\s*CKKS\s*=>\s*\{", "start": r"c\.plain_upper_half_threshold =",
              "opts": {"skeleton": SK_CKKS}},
+            {"name": "create_next_context_data", "fn": "create_next_context_data", "whole": True,
+             "params": "context_data_map: Map, prev_parms_id: ParmsID, sec_level: SecurityLevel",
+             "opts": {"skeleton": SK_CREATE_NEXT, "register_as": "create_next_context_data"}},
         ]}
